@@ -115,6 +115,7 @@ def run(repo, rep, tier):
     pluto(repo, rep)
     minor(repo, rep)
     minor_time_symmetry(repo, rep)
+    minor_orientation(repo, rep)
     fam = [(p, p + ".geocentric_position") for p in PLANETS] + [("Pluto", "Pluto.geocentric_position"), ("Pluto", "Pluto.geometric_heliocentric_position"),
            ("Minor", "Minor.geocentric_position"), ("Minor", "Minor.heliocentric_ecliptical_position"), ("Minor", "Minor._near_parabolic"), ("Minor", "Minor.set"),
            # the Sun/Earth vector Pluto and the minor bodies are referred to: must depend on its epoch argument only
@@ -161,6 +162,69 @@ def _definite(v, r, why):
     """a definite asymmetry: the anomaly is even / the radius odd, or an even and an odd quantity were added and
     the sum reaches the result; anything the analysis merely does not understand is reported as inconclusive"""
     return v.p == "E" or r.p == "O" or "sum of an even and an odd quantity" in str(why)
+
+
+def minor_orientation(repo, rep):
+    """R-RECIPE (Minor.set): the six orientation constants that geocentric_position uses (Meeus 33.7) are
+        F = cos Om, G = sin Om cos eps, H = sin Om sin eps, P = -sin Om cos i, Q = cos Om cos i cos eps - sin i sin eps,
+        R = cos Om cos i sin eps + sin i cos eps;  A = atan2(F, P), B = atan2(G, Q), C = atan2(H, R), a = sqrt(F^2 + P^2), ...
+    as terms in (Om, i) - for every orientation, retrograde orbits (cos i < 0) included.  heliocentric_ecliptical_position reads
+    i directly, so a constant that loses the sign of cos i makes the two routines disagree for i > 90 deg."""
+    from ..poly import Algebra
+    from ..rules import D2R
+    rep.rule("R-RECIPE", "orientation constants of Minor.set equal the published expressions in (Omega, i) as terms (polynomial normal form in sin/cos atoms)")
+    q = "Minor.set"
+    site = "Minor." + q
+    rep.fn("Minor", q)
+    fn = repo.func("Minor", q)
+    nm = [a_.arg for a_ in fn.args.args]
+    if nm != ["self", "q", "e", "i", "omega", "w", "t"]:
+        rep.inconcl("R-RECIPE", site, "signature is not (q, e, i, omega, w, t)")
+        return
+    at = {"self": T.sym("self"), "q": T.sym("NUM_Q"), "e": T.sym("NUM_E"), "i": ("angle", T.sym("I")), "omega": ("angle", T.sym("OM")),
+          "w": ("angle", T.sym("W")), "t": ("epoch", T.sym("T0"))}
+    outs = [o for o in outcomes(repo, "Minor", q, arg_terms=at) if o.kind in ("ret", "fall")]
+    if not outs:
+        rep.inconcl("R-RECIPE", site, "no value-setting path")
+        return
+    env = outs[0].env
+    om, inc = T.mul(T.sym("OM"), D2R), T.mul(T.sym("I"), D2R)
+    sn, cs = (lambda x: T.call("sin", x)), (lambda x: T.call("cos", x))
+    alg = Algebra(atomize=True)
+    # eps: taken from the code's own constants (sin eps, cos eps of J2000): identified as the two numeric factors of G and H
+    fields = {k_: env.get("self._" + k_) for k_ in ("aa", "bb", "cc", "am", "bm", "cm")}
+    if any(v is None for v in fields.values()) or any(fields[k_][0] != "call" or fields[k_][1] != "atan2" for k_ in ("aa", "bb", "cc")):
+        rep.inconcl("R-RECIPE", site, "orientation constants are not stored as atan2(.., ..) / sqrt(..) fields _aa.._cm")
+        return
+    F_, P_ = fields["aa"][2], fields["aa"][3]
+    G_, Q_ = fields["bb"][2], fields["bb"][3]
+    H_, R_ = fields["cc"][2], fields["cc"][3]
+    try:
+        cg, rg = T.split_coeff(G_)
+        ch, rh = T.split_coeff(H_)
+        if rg != sn(om) or rh != sn(om) or not (0 < cg < 1 and 0 < ch < 1) or abs(float(cg * cg + ch * ch) - 1.0) > 1e-6:
+            rep.violation("R-RECIPE", site, "orientation:GH", "G, H are not sin(Omega) * (cos eps, sin eps) of one obliquity: %s ; %s" % (T.show(G_)[:60], T.show(H_)[:60]), obligation=True)
+            return
+        ce, se = T.num(cg), T.num(ch)
+        want = {"F": cs(om), "P": T.mul(T.num(-1), sn(om), cs(inc)),
+                "Q": T.sub(T.mul(cs(om), cs(inc), ce), T.mul(sn(inc), se)), "R": T.add(T.mul(cs(om), cs(inc), se), T.mul(sn(inc), ce))}
+        got = {"F": F_, "P": P_, "Q": Q_, "R": R_}
+        bad = [k_ for k_ in ("F", "P", "Q", "R") if not alg.equal(got[k_], want[k_])]
+        mods = {"am": T.add(T.mul(F_, F_), T.mul(P_, P_)), "bm": T.add(T.mul(G_, G_), T.mul(Q_, Q_)), "cm": T.add(T.mul(H_, H_), T.mul(R_, R_))}
+        for k_, w_ in mods.items():
+            v = fields[k_]
+            if not (v[0] == "call" and v[1] == "sqrt" and alg.equal(v[2], w_)):
+                bad.append(k_)
+    except Exception as e:
+        rep.inconcl("R-RECIPE", site, "orientation constants not comparable: %s" % e)
+        return
+    if bad:
+        rep.violation("R-RECIPE", site, "orientation:" + ",".join(bad),
+                      "orientation constant(s) %s differ from the published expressions in (Omega, i); e.g. %s = %s - for retrograde orbits (cos i < 0) a form like "
+                      "sqrt(1 - sin^2 i) loses the sign and geocentric_position works in the mirrored orbit plane" % (", ".join(bad), bad[0], T.show(got.get(bad[0], fields.get(bad[0])))[:100]),
+                      obligation=True)
+    else:
+        rep.ok("R-RECIPE", site, "F, G, H, P, Q, R and the moduli a, b, c are the published expressions in (Omega, i), valid for every inclination", obligation=True)
 
 
 def minor_time_symmetry(repo, rep):
